@@ -434,6 +434,8 @@ META = (META[0] + ' CMP3 (a compare member that tests sizes or calls traits comp
 
 META = (META[0] + ' TRAITSORD (the ordering operations of the string order characters through Traits).', META[1])
 
+META = (META[0] + ' FIRSTREAD and IT4i over the view searches the string forwards to.', META[1])
+
 
 def run(chk, tier):
     db = D.load("checks")
@@ -464,6 +466,11 @@ def run(chk, tier):
         chk.analysis_broken("SLOTS-W: only %d growing size stores found in basic_inplace_string (floor 4)" % chk.rule_instances.get("SLOTS-W", 0))
     same_name_delegation(chk, db)
     compare3_rule(chk, db)
+    from ..rules import exits as _EXF
+    if _EXF.check_first_read(chk, D.load('plain')) < 4:      # FIRSTREAD (shared with C08): the searches the string forwards to
+        chk.analysis_broken('FIRSTREAD: fewer than 4 searches that scan by themselves (floor 4)')
+    from ..rules import iters as _ITR4
+    _ITR4.reverse_index_area(chk, db, ['_string_view/', '_string/basic_inplace_string'])      # IT4i: downward index scans reach index 0
     from ..rules import extra8 as _X8
     if _X8.traits_order_area(chk, db, ['_string/basic_inplace_string.hpp']) < 8:      # TRAITSORD
         chk.analysis_broken('TRAITSORD: fewer than 8 ordering operations of basic_inplace_string found (floor 8)')
